@@ -632,6 +632,7 @@ class _Evaluator:
         if t == 'files-source':
             if 'c' in e:
                 for ent in e['e']:
+                    self.soft_file_name(ent['n'])
                     if ent.get('s') is not None:
                         self.soft_scan('text-source' if ent['k'] == 'file' else 'files-source', ent['s'])
             elif 'op' in e:
@@ -671,9 +672,18 @@ class _Evaluator:
         for st, key in sub:
             self.soft_scan(st, e[key])
         if t == 'files-condition' and c == 'set':
-            for _name, fm in e['e']:
+            for name, fm in e['e']:
+                self.soft_file_name(name)
                 if fm is not None:
                     self.soft_scan('file-matcher', fm)
+
+    def soft_file_name(self, s):
+        """FILE-NAME of a FILE-SPEC / FILE-CONDITION: 'A relative path, using Posix syntax.  Must not contain ".."'.
+        The program also rejects names with ':' or ';' and the empty name (by value; not about symbols)."""
+        v = self.str_(s)
+        if (v is UNKNOWN or v == '' or v.startswith('/') or ':' in v or ';' in v
+                or '..' in PurePosixPath(v).parts):
+            self.out.soft.append('file-name-value')
 
 
 def evaluate(case, roots, reading=None) -> Outcome:
